@@ -1,6 +1,8 @@
 //! C19 — node-id arithmetic.  No stubs, no stand-ins: the real `crc`, `Id`, `FromStr`.
 //! Private names used: `Id.0` (via `Id::from`), `from_ipv4_and_r`, `id_prefix_ipv4` (indirectly).
 use super::*;
+#[allow(unused_imports)]
+use crate::verif_env::k as kani;
 use crate::verif_env::ref_crc32c;
 
 /// bit-by-bit reference: 160 - (number of leading zero bits of a^b)
